@@ -447,19 +447,12 @@ theorem transact_asset (p : Position α) (t : Txn α) : (p.transact t).1.asset =
   by_cases hq : t.qty = 0
   · rw [if_pos hq]
   · rw [if_neg hq]
-    by_cases hpos : 0 < t.qty
-    · simp only [hpos, if_true]
-      have h := updatePrice_asset (p.transactBuy (ofInt t.qty) t.price t.commission) t.price t.time
-      rcases hu : (p.transactBuy (ofInt t.qty) t.price t.commission).updatePrice t.price t.time
-        with ⟨p2, _ | e⟩
-      · rw [hu] at h; exact h
-      · rw [hu] at h; exact h
-    · simp only [hpos, if_false]
-      have h := updatePrice_asset (p.transactSell (ofInt (-t.qty)) t.price t.commission) t.price t.time
-      rcases hu : (p.transactSell (ofInt (-t.qty)) t.price t.commission).updatePrice t.price t.time
-        with ⟨p2, _ | e⟩
-      · rw [hu] at h; exact h
-      · rw [hu] at h; exact h
+    have h := updatePrice_asset p t.price t.time
+    rcases hu : p.updatePrice t.price t.time with ⟨p1, _ | e⟩
+    · rw [hu] at h
+      dsimp only at h ⊢
+      split <;> exact h
+    · rw [hu] at h; exact h
 
 /-- a fill never touches the dictionary entry of another asset (error or not) -/
 theorem transactPosition_find?_ne (ps : Positions α) (t : Txn α) {a : String} (ha : a ≠ t.asset) :
